@@ -86,3 +86,59 @@ pub fn report_findings(run: &mut Run, prop: &str, script_name: &str, findings: V
         });
     }
 }
+
+/// `./check replay <file>` for a counterexample of a cluster-script check (C04, C14): the cluster is
+/// rebuilt, the recorded transitions are taken one by one, and every message on the links is printed.
+pub fn replay_script(script_name: &str, path: &[String]) -> i32 {
+    crate::net::init_sleep_sites();
+    // "[3 nodes, none db] n1:`create-db d2 tok2` ; n2:`set k v`"
+    let head = script_name.trim_start_matches('[');
+    let nodes: usize = head.split(' ').next().and_then(|n| n.parse().ok()).unwrap_or(2);
+    let strategy: &'static str = if head.contains("arbiter db]") { "arbiter" } else if head.contains("newer db]") { "newer" } else { "none" };
+    let body = script_name.split("] ").nth(1).unwrap_or("");
+    let mut ops = vec![];
+    for part in body.split(" ; ") {
+        if let Some((n, c)) = part.split_once(":`") {
+            let node: usize = n.trim_start_matches('n').parse().unwrap_or(1);
+            ops.push((node - 1, c.trim_end_matches('`').to_string()));
+        }
+    }
+    let script = Script { ops };
+    let setup = ClusterSetup { nodes, strategy, init: vec!["set k v0".into(), "set k v0b".into(), "set c 5".into()] };
+    let mut w = match build(&setup, &script) {
+        Ok(w) => w,
+        Err(e) => {
+            eprintln!("machinery: cannot build the cluster: {}", e);
+            return 2;
+        }
+    };
+    println!("script: {:?} on {} nodes, {} database", script.name(), nodes, strategy);
+    for (i, want) in path.iter().enumerate() {
+        let en = w.enabled(true);
+        let t = match en.iter().find(|t| format!("{:?}", t) == *want) {
+            Some(t) => t.clone(),
+            None => {
+                eprintln!("replay divergence at step {}: {} is not enabled; enabled {:?}", i, want, en);
+                w.shutdown();
+                return 2;
+            }
+        };
+        if let Err(e) = w.apply(&t) {
+            eprintln!("machinery: {}", e);
+            return 2;
+        }
+        let from = w.traffic.len();
+        let _ = from;
+        println!("{:4} {}", i, want);
+    }
+    println!("messages on the links, in order:");
+    for (f, t, m) in w.traffic.iter() {
+        println!("   n{} -> n{}  {}", f + 1, t + 1, m);
+    }
+    for i in 0..nodes {
+        println!("n{}: role {} data {:?}", i + 1, w.role(i), data_view(&w, i));
+    }
+    println!("enabled afterwards: {:?}", w.enabled(true));
+    w.shutdown();
+    0
+}
